@@ -737,6 +737,12 @@ func (e *Env) call(n *ECall) (tv, error) {
 		id := e.sc.sorts.ifaceID(gt)
 		e.g.box(gt, e.sc.sorts.zero(gt))
 		return tv{t: fmt.Sprintf("(unbox_%d %s)", id, as.t), ty: goT(gt)}, nil
+	case "f2u":
+		as, err := args()
+		if err != nil {
+			return tv{}, err
+		}
+		return tv{t: fmt.Sprintf("(f2u %s)", as[0].t), ty: stInt}, nil
 	case "fresherr":
 		as, err := args()
 		if err != nil {
